@@ -175,6 +175,22 @@ pub enum Ev {
     Audit,
     /// Read and use the golden objects written by the pinned release (C13).
     Golden,
+    /// Enumerate a fault sub-space on one stored object: every `stride`-th bit flipped /
+    /// every truncation length / every single-byte overwrite, each read by one authorized
+    /// and one unauthorized key.
+    SweepSlot { slot: usize, mode: SweepMode, stride: usize },
+    /// Enumerate every re-framing operator at every applicable position on one user's key.
+    SweepUsk { user: usize },
+    /// Enumerate hostile rewrites of one object: every truncation, every byte xor {0x01,0x80,0xff},
+    /// every count/length field x every boundary value.
+    SweepHostile { target: HostileTarget, parser: Parser, stride: usize },
+}
+
+#[derive(Clone, Debug, PartialEq, Eq, Serialize, Deserialize)]
+pub enum SweepMode {
+    BitFlips,
+    Truncations,
+    ByteOverwrites,
 }
 
 impl Ev {
@@ -205,6 +221,9 @@ impl Ev {
             Ev::Hostile { .. } => "Hostile",
             Ev::Audit => "Audit",
             Ev::Golden => "Golden",
+            Ev::SweepSlot { .. } => "SweepSlot",
+            Ev::SweepUsk { .. } => "SweepUsk",
+            Ev::SweepHostile { .. } => "SweepHostile",
         }
     }
 }
